@@ -5,6 +5,8 @@ import (
 	"fmt"
 	"net"
 	"os"
+	"runtime"
+	"runtime/debug"
 	"sort"
 	"strings"
 	"time"
@@ -440,7 +442,7 @@ func init() {
 			"pods: x, x re-created with a new IP (same chain name), y (two ports, one with hostIP), z (same port number, other protocol); prior NAT tables: empty, foreign chains/rules, stale galaxy chains",
 			"host ports are real sockets on this machine (port numbers offset per process)"},
 		Rule: "BFS over histories of {ensure-basic, setup(p), clean(p), fullsync(S)} for p in {x,x2,y,z}, 7 pod sets S, from each prior NAT table; state = iptables-save of the NAT table; every transition is checked against " +
-			"the differential reference (the same pods synced on an empty kernel) for the named pods, byte-for-byte equality for other pods' and foreign chains, and for kernel-rejected commands; plus exhaustive open/hold/close of host-port lists for two pods",
+			"the differential reference (the same pods synced on an empty kernel) for the named pods, byte-for-byte equality for other pods' and foreign chains, and for kernel-rejected commands; plus exhaustive open/hold/close of host-port lists for two pods, and every schedule (preemption-bounded) of overlapping set-up / tear-down on one handler against the sequential orders of the same operations",
 		Jobs: func(tier string) []Job {
 			depth := 4
 			if tier == "thorough" {
@@ -450,10 +452,211 @@ func init() {
 			if tier == "thorough" {
 				xd = 3
 			}
-			return []Job{c14Job("empty", base, depth), c14Job("foreign", base, depth), c14Job("stale", base, depth), c14PortsJob(base),
+			return []Job{c14Job("empty", base, depth), c14Job("foreign", base, depth), c14Job("stale", base, depth), c14PortsJob(base), c14ConcurrentPortsJob(base, tier),
 				c14XCheckJob("empty", base, xd), c14XCheckJob("foreign", base, xd), c14XCheckJob("stale", base, xd)}
 		}})
 	replayers["C14"] = replayDescOnly
 	_ = json.Marshal
 	_ = coop.IsManaged
+}
+
+// ---------------------------------------------------------------------------------------------
+// host ports under overlapping set-up and tear-down (coop): every schedule of the handler's lock operations
+
+type hpOp struct {
+	open   bool
+	name   string
+	ports  []int32 // tcp host ports
+	random bool
+}
+
+func (o hpOp) String() string {
+	if o.open {
+		return fmt.Sprintf("open(%s,%v)", o.name, o.ports)
+	}
+	return "close(" + o.name + ")"
+}
+
+type hpOutcome struct {
+	tracked string          // sorted VerifOpenPorts
+	bound   map[int32]bool  // which menu ports refuse an independent bind
+	results string          // per operation: ok / failed
+	errs    map[string]bool // names whose open failed
+}
+
+func c14ConcurrentPortsJob(base int32, tier string) Job {
+	name := "hostports/overlapping-setup-teardown"
+	return Job{Name: name, Weight: 2, Run: func(deadline time.Time) *ScenResult {
+		t0 := time.Now()
+		old := debug.SetGCPercent(-1)
+		defer debug.SetGCPercent(old)
+		A, B := base+15, base+16
+		menu := []int32{A, B}
+		type scen struct {
+			name    string
+			setup   []hpOp
+			threads []hpOp
+		}
+		scens := []scen{
+			// the old incarnation of a pod is torn down while the re-created pod of the same name is set up
+			{"close(p)||open(p,B)", []hpOp{{open: true, name: "ns_p", ports: []int32{A}}}, []hpOp{{name: "ns_p"}, {open: true, name: "ns_p", ports: []int32{B}}}},
+			{"close(p)||open(p,A)", []hpOp{{open: true, name: "ns_p", ports: []int32{A}}}, []hpOp{{name: "ns_p"}, {open: true, name: "ns_p", ports: []int32{A}}}},
+			{"close(p)||close(p)||open(q,A)", []hpOp{{open: true, name: "ns_p", ports: []int32{A}}}, []hpOp{{name: "ns_p"}, {name: "ns_p"}, {open: true, name: "ns_q", ports: []int32{A}}}},
+			{"open(p,A)||open(q,A)", nil, []hpOp{{open: true, name: "ns_p", ports: []int32{A}}, {open: true, name: "ns_q", ports: []int32{A}}}},
+			{"open(p,A)||open(q,B)||close(r)", []hpOp{{open: true, name: "ns_r", ports: []int32{B}}}, []hpOp{{open: true, name: "ns_p", ports: []int32{A}}, {open: true, name: "ns_q", ports: []int32{B}}, {name: "ns_r"}}},
+		}
+		bounds := map[string]int{"preempt": 2}
+		if tier == "thorough" {
+			bounds["preempt"] = 3
+		}
+		total := &ScenResult{Scenario: name, Class: "ports", Bounds: bounds, Exhaustive: true}
+		// wait until no menu port is bound any more (sockets dropped without Close are released by their finalizers)
+		settle := func() bool {
+			for i := 0; i < 200; i++ {
+				free := true
+				for _, p := range menu {
+					if tryBind("tcp", p) != nil {
+						free = false
+					}
+				}
+				if free {
+					return true
+				}
+				runtime.GC()
+				time.Sleep(time.Millisecond)
+			}
+			return false
+		}
+		apply := func(h *portmapping.PortMappingHandler, o hpOp) error {
+			if !o.open {
+				h.CloseHostports(o.name)
+				return nil
+			}
+			var ps []k8s.Port
+			for _, p := range o.ports {
+				ps = append(ps, k8s.Port{HostPort: p, ContainerPort: 80, Protocol: "TCP", PodName: o.name, PodIP: "10.0.0.2"})
+			}
+			return h.OpenHostports(o.name, o.random, ps)
+		}
+		observe := func(h *portmapping.PortMappingHandler, res []string) hpOutcome {
+			tr := h.VerifOpenPorts()
+			sort.Strings(tr)
+			out := hpOutcome{tracked: strings.Join(tr, ","), bound: map[int32]bool{}, results: strings.Join(res, ",")}
+			for _, p := range menu {
+				out.bound[p] = tryBind("tcp", p) != nil
+			}
+			return out
+		}
+		for _, sc := range scens {
+			sc := sc
+			// reference: the same operations in every sequential order on the real handler
+			var allowed []hpOutcome
+			perm := make([]int, len(sc.threads))
+			for i := range perm {
+				perm[i] = i
+			}
+			var rec func(k int)
+			rec = func(k int) {
+				if k == len(perm) {
+					if !settle() {
+						panic("host ports of the harness stay bound")
+					}
+					h := portmapping.NewVerif(utiliptables.New(nfsim.New().Exec(), utiliptables.ProtocolIpv4), "")
+					for _, o := range sc.setup {
+						_ = apply(h, o)
+					}
+					res := make([]string, len(sc.threads))
+					for _, i := range perm {
+						res[i] = fmt.Sprint(apply(h, sc.threads[i]) == nil)
+					}
+					allowed = append(allowed, observe(h, res))
+					return
+				}
+				for i := k; i < len(perm); i++ {
+					perm[k], perm[i] = perm[i], perm[k]
+					rec(k + 1)
+					perm[k], perm[i] = perm[i], perm[k]
+				}
+			}
+			rec(0)
+			e := &coop.Explorer{Bounds: bounds, Deadline: deadline, Name: name + "/" + sc.name}
+			res := e.Explore(func(x *coop.Exec) coop.Outcome {
+				if !settle() {
+					return coop.Outcome{Err: fmt.Errorf("host ports of the harness stay bound"), Signature: "C14|harness||"}
+				}
+				h := portmapping.NewVerif(utiliptables.New(nfsim.New().Exec(), utiliptables.ProtocolIpv4), "")
+				for _, o := range sc.setup {
+					_ = apply(h, o)
+				}
+				s := coop.NewSched(x)
+				results := make([]string, len(sc.threads))
+				for i, o := range sc.threads {
+					i, o := i, o
+					s.Go(fmt.Sprintf("%s#%d", o, i), func() { results[i] = fmt.Sprint(apply(h, o) == nil) })
+				}
+				s.Run()
+				out := coop.Outcome{Trace: s.TraceStrings(), Nontrivial: true}
+				if s.Deadlock {
+					out.Err = fmt.Errorf("deadlock")
+					out.Signature = "C14|deadlock|" + sc.name + "|ports"
+					return out
+				}
+				if s.Err != nil {
+					out.Err = s.Err
+					out.Signature = "C14|error|" + sc.name + "|ports"
+					return out
+				}
+				got := observe(h, results)
+				out.StateHash = hashOf(got.tracked, fmt.Sprint(got.bound), got.results)
+				// the set of held ports must be the one of some sequential order of the same operations: same tracked ports and
+				// results, every tracked port really bound, nothing bound that the sequential order does not leave bound
+				ok := false
+				for _, a := range allowed {
+					if a.tracked != got.tracked || a.results != got.results {
+						continue
+					}
+					fits := true
+					for _, p := range menu {
+						if got.bound[p] && !a.bound[p] {
+							fits = false
+						}
+						if strings.Contains(got.tracked, fmt.Sprintf("tcp:%d", p)) && !got.bound[p] {
+							fits = false
+						}
+					}
+					if fits {
+						ok = true
+					}
+				}
+				if !ok {
+					var al []string
+					for _, a := range allowed {
+						al = append(al, fmt.Sprintf("{tracked [%s] results [%s] bound %v}", a.tracked, a.results, a.bound))
+					}
+					out.Err = fmt.Errorf("held-ports-match-no-sequential-order: %s after setup %v: tracked [%s] results [%s] bound %v; sequential orders give %s",
+						sc.name, sc.setup, got.tracked, got.results, got.bound, strings.Join(al, " "))
+					out.Signature = "C14|held-ports-match-no-sequential-order|" + sc.name + "|ports"
+				}
+				return out
+			})
+			total.Executions += res.Executions
+			total.Diverged += res.Diverged
+			total.Exhaustive = total.Exhaustive && res.Exhaustive
+			if res.StoppedByLimit != "" {
+				total.Stopped = res.StoppedByLimit
+			}
+			if res.MaxPoints > total.MaxPoints {
+				total.MaxPoints = res.MaxPoints
+			}
+			total.Samples = append(total.Samples, res.SampleTraces...)
+			total.Violations = append(total.Violations, res.Violations...)
+			for hsh := range res.Distinct {
+				total.Distinct = append(total.Distinct, sc.name+hsh)
+				total.Nontrivial = append(total.Nontrivial, sc.name+hsh)
+			}
+		}
+		settle()
+		total.WallS = time.Since(t0).Seconds()
+		return total
+	}}
 }
